@@ -140,12 +140,17 @@ Definition v_tables (cosv : oracle) (x w vx vw : list float) : Z :=
 (* 0 scalar, 1 _vec1 (array, scalar), 2 _vec2 (scalar, array), 3 _2vec, 4 ValueError; compared on every run with the
    decision function Gen.dispatch_src_<method> translated from cosmology.py (harness: "Gen: dispatch of ...") *)
 Definition is_sc {A} (a : zarg A) : bool := match a with Sc _ => true | Ar _ => false end.
-Definition arg_len {A} (a : zarg A) : nat := match a with Sc _ => 1%nat | Ar l => length l end.
 Definition code_of {A B} (f : A -> A -> B) (a b : zarg A) : nat :=
   match a, b, dispatch2 f a b with
   | Sc _, Sc _, Ok (Sc _) => 0 | Ar _, Sc _, Ok (Ar _) => 1 | Sc _, Ar _, Ok (Ar _) => 2 | Ar _, Ar _, Ok (Ar _) => 3
   | _, _, Err EValue => 4 | _, _, _ => 5
   end%nat.
+
+(* the flags Gen.WRAP_<name> translated from cosmolib_pywrap.c as (C function index, arguments in order, Model.wrapper);
+   compared on every run with Model.W_vec1 / W_vec2 / W_2vec, for which C11_vector_loops_are_elementwise is proved *)
+Definition wrapper_of (t : nat * bool * bool * bool * bool) : nat * bool * wrapper :=
+  let '(c, i1, i2, sf, ord) := t in
+  (c, ord, mkW (if i1 then KIndexed else KScalar) (if i2 then KIndexed else KScalar) sf).
 
 (* ---------------------------------------------------------------- literal decoding of long arrays *)
 (* A long array argument / result is printed by the harness as a palette of bit patterns plus a hex string of
